@@ -322,6 +322,12 @@ def r4_field_mapping(ctx) -> None:
         rule, ra, rb = make(["u", "ip"], None, with_aliases=False)
         run_case(rule)
         cases.append(("without aliases every group-by field is mapped", rule.group_by, ["ALIAS_U", "IP"]))
+        # an alias target is an event field of the referred rule, also when it is spelled like an alias name of the correlation
+        rule, ra, rb = make(["u"], None)
+        rule.aliases = [_Alias("u", {ra: "u", rb: "u"})]
+        run_case(rule)
+        cases.append(("an alias target spelled like an alias name is an event field of the referred rule and is mapped", rule.aliases[0].mapping[ra], "ALIAS_U"))
+        cases.append(("…while the alias name in group-by is kept", rule.group_by, ["u"]))
     except Raised as ex:
         r.violation("C10.R4", f.qual, "apply() on a correlation rule", f"the tabulated application raises {ex}", f.loc)
         cases = []
